@@ -7,7 +7,7 @@ package collection
 //@ spec ticksUntil(p int, t int, n int) int = wrap(p - t - 1, n) + 1
 
 //@ func (*TimingWheel).getPositionAndCircle
-//@   prop C10, C17
+//@   prop C10, C17, C06
 //@   requires w.numSlots >= 1 && 0 <= w.tickedPos && w.tickedPos < w.numSlots
 //@   requires w.interval > 0 && d >= w.interval
 //@   ensures [range] 0 <= pos && pos < w.numSlots && circle >= 0
@@ -21,7 +21,7 @@ package collection
 //@ macro smTag(m, k) = ite(has(m.dirtyOld, k), m.dirtyOld[k].tag, m.dirtyNew[k].tag)
 
 //@ func (*SafeMap).Get
-//@   prop C10, C17
+//@   prop C10, C17, C06
 //@   requires m != nil
 //@   ensures [found] result1 == smHas(m, key)
 //@   ensures [value] result1 ==> result0.val == smGet(m, key) && result0.tag == smTag(m, key)
@@ -35,7 +35,7 @@ package collection
 //@ macro dO(m, key, k) = old(has(m.dirtyOld, k)) && k != ifacekey(key)
 //@ macro dN(m, key, k) = old(has(m.dirtyNew, k)) && !(k == ifacekey(key) && !old(has(m.dirtyOld, ifacekey(key))))
 //@ func (*SafeMap).Del
-//@   prop C10, C17
+//@   prop C10, C17, C06
 //@   requires smOK(m)
 //@   loop 1 invariant m.dirtyOld == old(m.dirtyOld) && m.dirtyNew == old(m.dirtyNew)
 //@   loop 1 invariant forallk(k, int, has(m.dirtyOld, k) == dO(m, key, k) && (has(m.dirtyOld, k) ==> m.dirtyOld[k] == old(m.dirtyOld[k])))
@@ -51,7 +51,7 @@ package collection
 //@   modifies m.dirtyOld, m.dirtyNew, m.deletionOld, m.deletionNew, mapsof(m.dirtyOld)
 
 //@ func (*SafeMap).Put
-//@   prop C10, C17
+//@   prop C10, C17, C06
 //@   requires smOK(m)
 //@   ensures [representation-kept] smOK(m)
 //@   ensures [has] forallk(k, int, smHas(m, k) == (old(smHas(m, k)) || k == ifacekey(key)))
@@ -74,7 +74,7 @@ package collection
 //@   | && len(w.slots) == w.numSlots && smOK(w.timers)
 
 //@ func (*TimingWheel).moveTask
-//@   prop C10, C17
+//@   prop C10, C17, C06
 //@   requires twOK(w) && twTimersOK(w)
 //@   let found = ret(Get, 1, 1)
 //@   let timer = unbox(ret(Get, 0, 1), ptr(positionEntry))
@@ -101,7 +101,7 @@ package collection
 //   diff > 0           -> moved to slot (tickedPos+diff) mod N with diff cleared, index updated
 //   otherwise          -> fires: handed to runTasks with its key/value, removed from slot and index
 //@ func (*TimingWheel).scanAndRunTasks
-//@   prop C10, C17
+//@   prop C10, C17, C06
 //@   opaque runTasks, setTimerPosition
 //@   requires twOK(w) && l != nil
 //@   loop 1 invariant smOK(w.timers)
@@ -123,7 +123,7 @@ package collection
 
 // A tick advances the wheel by one slot and scans exactly that slot.
 //@ func (*TimingWheel).onTick
-//@   prop C10, C17
+//@   prop C10, C17, C06
 //@   opaque scanAndRunTasks
 //@   requires twOK(w)
 //@   ensures [advance] w.tickedPos == wrap(old(w.tickedPos) + 1, w.numSlots) && w.numSlots == old(w.numSlots)
@@ -132,7 +132,7 @@ package collection
 // setTask: a new key is placed floor(delay/I) ticks ahead (delays below I count as I); an existing key gets
 // the new value and is re-scheduled through moveTask with the (clamped) delay.
 //@ func (*TimingWheel).setTask
-//@   prop C10, C17
+//@   prop C10, C17, C06
 //@   opaque moveTask, setTimerPosition
 //@   requires twOK(w) && twTimersOK(w) && task != nil
 //@   let found = ret(Get, 1, 1)
@@ -148,7 +148,7 @@ package collection
 
 // removeTask: tombstone the live entry and drop it from the index; nothing happens for an unknown key.
 //@ func (*TimingWheel).removeTask
-//@   prop C10, C17
+//@   prop C10, C17, C06
 //@   requires twOK(w) && twTimersOK(w)
 //@   let found = ret(Get, 1, 1)
 //@   let posEntry = unbox(ret(Get, 0, 1), ptr(positionEntry))
@@ -157,19 +157,19 @@ package collection
 
 // Invalid arguments are refused before anything is handed to the wheel goroutine.
 //@ func (*TimingWheel).SetTimer
-//@   prop C10
+//@   prop C10, C17, C06
 //@   requires w != nil
 //@   ensures [invalid] delay <= 0 || key == nil ==> result == ErrArgument && calls("send") == 0
 //@   ensures [valid] delay > 0 && key != nil ==> result == nil || result == ErrClosed
 //@   modifies nothing
 //@ func (*TimingWheel).MoveTimer
-//@   prop C10
+//@   prop C10, C17, C06
 //@   requires w != nil
 //@   ensures [invalid] delay <= 0 || key == nil ==> result == ErrArgument && calls("send") == 0
 //@   ensures [valid] delay > 0 && key != nil ==> result == nil || result == ErrClosed
 //@   modifies nothing
 //@ func (*TimingWheel).RemoveTimer
-//@   prop C10
+//@   prop C10, C17, C06
 //@   requires w != nil
 //@   ensures [invalid] key == nil ==> result == ErrArgument && calls("send") == 0
 //@   ensures [valid] key != nil ==> result == nil || result == ErrClosed
@@ -359,14 +359,14 @@ package collection
 // drainAll (Drain): EVERY slot of the wheel is visited, in turn - also the one at tickedPos, whose tasks are the
 // ones due next; each entry of a visited slot is unlinked and, unless it was removed, handed to fn exactly once.
 //@ func (*TimingWheel).drainAll
-//@   prop C10
+//@   prop C10, C17, C06
 //@   opaque NewTaskRunner, Schedule
 //@   requires w != nil
 //@   loop 1 invariant -1 <= rangeindex && rangeindex <= len(w.slots)
 //@   loop 1 iteration-ensures [each-slot-in-turn] calls(Front) == 1 && arg(Front, 0) == at_head(w.slots[rangeindex + 1])
 //@   loop 2 iteration-ensures [entry-unlinked-and-scheduled-unless-removed] calls(slot.Remove, at_head(e)) == 1 && calls(Next) == 1 && arg(Next, 0) == at_head(e) && e == ret(Next) && (calls(Schedule) == 1) == !unbox(at_head(e.Value), ptr(timingEntry)).removed
 //@ func (*TimingWheel).drainAll$1
-//@   prop C10
+//@   prop C10, C17, C06
 //@   ensures [task-handed-to-fn] calls(fn, task.key, task.value) == 1
 
 // ---------------- the wheel goroutine and its plumbing (C10) ----------------
@@ -374,7 +374,7 @@ package collection
 // was sent: a tick to onTick, a set to setTask (value included), a remove to removeTask, a move to moveTask, a
 // drain to drainAll; after Stop the goroutine stops the ticker and ends (so later requests find stopChannel closed).
 //@ func (*TimingWheel).run
-//@   prop C10, C17
+//@   prop C10, C17, C06
 //@   opaque onTick, setTask, removeTask, moveTask, drainAll, Chan, Stop
 //@   requires w != nil
 //@   let nSet = calls(on("recv", w.setChannel))
@@ -391,35 +391,35 @@ package collection
 
 // Drain hands the function to the wheel goroutine, or reports ErrClosed when the wheel was stopped.
 //@ func (*TimingWheel).Drain
-//@   prop C10
+//@   prop C10, C17, C06
 //@   requires w != nil
 //@   ensures [handed-over-or-closed] (result == nil) == (calls(on("send", w.drainChannel)) == 1) && (result == ErrClosed) == (calls(on("recv", w.stopChannel)) == 1) && (result == nil || result == ErrClosed)
 //@   ensures [the-given-function] result == nil ==> arg(on("send", w.drainChannel), 0) == fn
 //@   modifies nothing
 //@ func (*TimingWheel).Stop
-//@   prop C10
+//@   prop C10, C17, C06
 //@   requires w != nil
 //@   ensures [closes-stop-channel] calls(on("close", w.stopChannel)) == 1
 
 // Fired tasks run off the wheel goroutine, each exactly once with its own key and value, in scan order.
 //@ func (*TimingWheel).runTasks
-//@   prop C10, C17
+//@   prop C10, C17, C06
 //@   ensures [nothing-for-empty] len(tasks) == 0 ==> calls("go (*TimingWheel).runTasks$1") == 0
 //@   ensures [one-runner] len(tasks) > 0 ==> calls("go (*TimingWheel).runTasks$1") == 1
 //@ func (*TimingWheel).runTasks$1
-//@   prop C10, C17
+//@   prop C10, C17, C06
 //@   opaque RunSafe
 //@   loop 1 invariant -1 <= rangeindex
 //@   loop 1 iteration-ensures [each-task-once-in-order] calls(threading.RunSafe) == 1 && *captured(arg(threading.RunSafe, 0), int) == rangeindex
 //@ func (*TimingWheel).runTasks$1$1
-//@   prop C10, C17
+//@   prop C10, C17, C06
 //@   requires 0 <= i && i < len(tasks)
 //@   ensures [executes-that-task] calls(w.execute, tasks[i].key, tasks[i].value) == 1
 
 // setTimerPosition: the index entry of the key points at the new slot and the new list item (an existing entry is
 // updated in place, otherwise one is created).
 //@ func (*TimingWheel).setTimerPosition
-//@   prop C10, C17
+//@   prop C10, C17, C06
 //@   inline always
 //@   opaque Get, Put
 //@   requires w != nil && task != nil
@@ -432,19 +432,19 @@ package collection
 // Construction: the wheel starts "just before slot 0" (tickedPos = numSlots-1), with numSlots empty lists, and its
 // goroutine running; invalid parameters are refused.
 //@ func newTimingWheelWithClock
-//@   prop C10, C17
+//@   prop C10, C17, C06
 //@   opaque NewSafeMap, initSlots
 //@   requires numSlots >= 1
 //@   ensures [initial-state] result1 == nil && result0 != nil && fresh(result0) && result0.interval == interval && result0.numSlots == numSlots && result0.tickedPos == numSlots - 1 && len(result0.slots) == numSlots && result0.execute == execute && result0.ticker == ticker && result0.timers == ret(NewSafeMap)
 //@   ensures [slots-initialised-then-goroutine] calls(result0.initSlots) == 1 && calls("go (*TimingWheel).run") == 1 && before(initSlots, "go (*TimingWheel).run")
 //@ func (*TimingWheel).initSlots
-//@   prop C10
+//@   prop C10, C17, C06
 //@   requires w != nil && len(w.slots) == w.numSlots
 //@   loop 1 entry [starts-at-zero] i == 0
 //@   loop 1 invariant 0 <= i && forall(j, 0, i, w.slots[j] != nil)
 //@   ensures [every-slot-has-a-list] forall(j, 0, w.numSlots, w.slots[j] != nil)
 //@ func NewTimingWheel
-//@   prop C10
+//@   prop C10, C17, C06
 //@   opaque newTimingWheelWithClock, Errorf, NewTicker
 //@   ensures [invalid-refused] interval <= 0 || numSlots <= 0 || execute == nil ==> result0 == nil && result1 != nil && calls(newTimingWheelWithClock) == 0
 //@   ensures [valid-built] interval > 0 && numSlots > 0 && execute != nil ==> calls(newTimingWheelWithClock) == 1 && arg(newTimingWheelWithClock, 0) == interval && arg(newTimingWheelWithClock, 1) == numSlots && arg(newTimingWheelWithClock, 2) == execute && result0 == ret(newTimingWheelWithClock, 0) && calls(timex.NewTicker, interval) == 1
@@ -505,12 +505,12 @@ package collection
 //@   ensures rw.ignoreCurrent
 
 //@ func NewSafeMap
-//@   prop C10
+//@   prop C10, C17, C06
 //@   ensures [empty-and-well-formed] smOK(result) && forallk(k, int, !smHas(result, k)) && fresh(result)
 // SafeMap.Range: under the read lock, every entry of both generations is offered to f with its own value until f
 // says stop; the map is not changed by the walk itself.
 //@ func (*SafeMap).Range
-//@   prop C10, C17
+//@   prop C10, C17, C06
 //@   requires m != nil
 //@   loop 1 iteration-ensures [entry-offered-as-it-is-and-goes-on-only-after-a-yes] calls(f) == 1 && ret(f) && arg(f, 0) == k && arg(f, 1) == v
 //@   loop 2 iteration-ensures [entry-offered-as-it-is-and-goes-on-only-after-a-yes] calls(f) == 1 && ret(f) && arg(f, 0) == k && arg(f, 1) == v
